@@ -74,7 +74,7 @@ func registerModelProp(mp *modelProp) {
 				n = mp.nQuick
 			}
 			if tier == "thorough" {
-				n = 400000
+				n = 1500000
 				if mp.nThor > 0 {
 					n = mp.nThor
 				}
@@ -142,7 +142,7 @@ func registerModelProp(mp *modelProp) {
 
 func init() {
 	registerModelProp(&modelProp{
-		id: "C07", prof: gen.ProfControl, nQuick: 30000, nThor: 1200000,
+		id: "C07", prof: gen.ProfControl, nQuick: 30000, nThor: 3000000,
 		fixed: [][]gen.Stmt{{
 			&gen.ExprStmt{X: &gen.FuncLit{Name: "f0", Body: []gen.Stmt{&gen.Return{Exprs: []gen.Expr{&gen.Call{Fn: "hv", Args: []gen.Expr{lit(100)}}}}}}},
 			&gen.ExprStmt{X: &gen.Call{Fn: "f0", Spread: true, Args: []gen.Expr{gen.P(1), &gen.ListLit{Elems: []gen.Expr{gen.P(2)}}}}},
